@@ -225,3 +225,60 @@ Theorem C04_thread_set_state_from_source : forall (E : SysPre.senv) st0 st w t s
 Proof. exact (fun E st0 st w t s c0 c1 c2 HR Ht => SysProofs.sys_thread_set_state E st0 st w t HR Ht s c0 c1 c2). Qed.
 Print Assumptions C04_thread_set_state_from_source.
 (* ==== end of block (unit sys) ==== *)
+
+(* ==== thread life-cycle in the whole emulator (EmuAllStage) ==== *)
+(* C04 through the composition of all models (EmuAllDefs.ovniemu_model = EmuAllStage.stage; emulate, see Properties_C12.v).
+   For a whole trace whose delivered events decode to thread / affinity events only (decode_revs .. = oh_events h):
+   C04_all_accept_only_if (full): ovniemu_model answers Files => every stage passed (stage inp = inr ..: loader gates, every
+     stream structurally valid, merge, probe, marks, clock table, player without backward jump) AND the merged history h
+     satisfies the right-hand side of C04_accepted_iff_documented_machine: every event a legal transition of the documented
+     machine, every thread dead at the end, no physical CPU oversubscribed.
+   C04_all_accept_iff_partial: the iff.  The "if" direction takes ONE unproved link as a hypothesis,
+     EmuAllStage.writer_follows: the Paraver writer accepts what the emulator core accepts (rec_advance on the player's
+     non-decreasing times, rec_write on every line the core emits - C13_registration_total gives the connect part, the
+     "every emitted (row,type) was registered" part is not proved).  C04_all_stage_refusal: if stage refuses, so does the emulator.
+   Side conditions, all about the static description of the built system (stage_sx): types_ok, any_init_ok, OhStatic - the
+   hypotheses of C04_accepted_iff_documented_machine (C04_side_conditions_hold discharges the first two and the flag part of the
+   third for the specs of the current source; thread and process ids are non-zero by the loader's gates). *)
+From OV Require Emu.EmuAllDefs Proofs.EmuAllStage.
+Theorem C04_all_accept_only_if : forall inp out, EmuAllDefs.ovniemu_model inp = EmuAllDefs.Files out ->
+  exists sys en ms revs, EmuAllStage.stage inp = inr (sys, en, ms, revs) /\ EmuAllStage.stage_emulate inp sys en ms revs = Ok out /\
+    forall h, EmuAllProofs.decode_revs en (EmuAllStage.stage_sx inp sys en ms) revs = oh_events h ->
+      types_ok (EmuAllStage.stage_sx inp sys en ms) -> any_init_ok (EmuAllStage.stage_sx inp sys en ms) -> OhStatic (EmuAllStage.stage_sx inp sys en ms) ->
+      spec_accepts (EmuAllStage.stage_sx inp sys en ms) (untimed h) = true.
+Proof. exact EmuAllStage.all_accept_only_if. Qed.
+Print Assumptions C04_all_accept_only_if.
+
+Theorem C04_all_accept_iff_partial : forall inp sys en ms revs h, EmuAllStage.stage inp = inr (sys, en, ms, revs) ->
+  EmuAllProofs.decode_revs en (EmuAllStage.stage_sx inp sys en ms) revs = oh_events h ->
+  types_ok (EmuAllStage.stage_sx inp sys en ms) -> any_init_ok (EmuAllStage.stage_sx inp sys en ms) -> OhStatic (EmuAllStage.stage_sx inp sys en ms) ->
+  ((exists out, EmuAllDefs.ovniemu_model inp = EmuAllDefs.Files out) -> spec_accepts (EmuAllStage.stage_sx inp sys en ms) (untimed h) = true) /\
+  (EmuAllStage.writer_follows inp sys en ms revs -> spec_accepts (EmuAllStage.stage_sx inp sys en ms) (untimed h) = true ->
+     exists out, EmuAllDefs.ovniemu_model inp = EmuAllDefs.Files out).
+Proof. exact EmuAllStage.all_accept_iff_partial. Qed.
+Print Assumptions C04_all_accept_iff_partial.
+
+Theorem C04_all_stage_refusal : forall inp w, EmuAllStage.stage inp = inl w -> EmuAllDefs.ovniemu_model inp = EmuAllDefs.Refused w.
+Proof. exact EmuAllStage.stage_refusal_refuses. Qed.
+Print Assumptions C04_all_stage_refusal.
+
+(* C04_all_accept_iff (FULL): the unproved link of C04_all_accept_iff_partial is discharged by PvWriterTotal.emulate_total
+   (C13_writer_follows_core: after connect every (row, type) the core can emit has a registered PRV channel, recorder_advance
+   accepts non-decreasing times, finish without task types and close cannot fail).  For a trace whose delivered events are
+   thread / affinity events: ovniemu_model answers Files  <->  [the stage passed: every stream.json through the gates, every
+   stream.obs valid, merge, probe, marks, clock table, player]  AND  the merged history is legal for the documented machine,
+   every thread dead at the end, no physical CPU oversubscribed.  Side conditions, all listed: types_ok / any_init_ok / OhStatic
+   of the static description (as in C04_accepted_iff_documented_machine); marks_ok + marks_fine of the merged mark types (ids
+   0..99, distinct, titles / labels short and without newline, distinct label values); sys_small (fewer than 2^31 CPUs, ids that
+   fit the C types); the delivered times are non-decreasing (what the player guarantees: C03). *)
+From OV Require Proofs.EmuAllC04 Proofs.PvTotalProofs Proofs.PvProofs.
+Theorem C04_all_accept_iff : forall inp sys en ms revs h, EmuAllStage.stage inp = inr (sys, en, ms, revs) ->
+  let sx := EmuAllStage.stage_sx inp sys en ms in
+  EmuAllProofs.decode_revs en sx revs = oh_events h ->
+  types_ok sx -> any_init_ok sx -> OhStatic sx ->
+  PvProofs.marks_ok ms -> PvTotalProofs.marks_fine ms -> PvTotalProofs.sys_small sys ->
+  Sorted.StronglySorted Z.le (map PrvProofs.ev_time (oh_events h)) ->
+  ((exists out, EmuAllDefs.ovniemu_model inp = EmuAllDefs.Files out) <-> spec_accepts sx (untimed h) = true).
+Proof. exact EmuAllC04.all_accept_iff. Qed.
+Print Assumptions C04_all_accept_iff.
+(* ==== end of block (EmuAllStage) ==== *)
